@@ -81,7 +81,7 @@ def body(rng, b, cid, mode, allow_panic, p_panic=0.3):
     return ops
 
 
-def gen_history(rng, u, nthreads=1, length=10, profile=None, pre=()):
+def gen_history(rng, u, nthreads=1, length=10, profile=None, pre=(), unw=()):
     """profile: weights for op classes; returns list of (tid, op)"""
     pf = dict(key=1.0, acquire=4.0, release=4.0, access=1.0, panic=0.0, poison=0.0, fmt=0.0, forget=0.0,
               invalid=0.15, block=0.03, closure_panic=0.0)
@@ -107,7 +107,9 @@ def gen_history(rng, u, nthreads=1, length=10, profile=None, pre=()):
                       (pf["panic"], "panic"), (pf["invalid"] * 0.5, "get_again")]
         if st == "leaked":
             cands += [(1.0, "get_again"), (pf["invalid"], "acq_nokey"), (pf["panic"] * 0.3, "panic")]
-        cands += [(pf["poison"], "poisonop"), (pf["fmt"], "fmt"), (pf["invalid"] * 0.3, "gdrop_noguard")]
+        cands += [(pf["poison"], "poisonop"), (pf["fmt"], "fmt")]
+        if t not in unw:
+            cands += [(pf["invalid"] * 0.3, "gdrop_noguard")]
         cands = [c for c in cands if c[0] > 0]
         tot = sum(c[0] for c in cands)
         x = rng.random() * tot
@@ -150,6 +152,14 @@ def gen_history(rng, u, nthreads=1, length=10, profile=None, pre=()):
                     break
             if kind == "acq" and not av and fl == "guard":
                 break   # the call blocks: the history ends here
+        elif kind == "release" and t in unw:
+            # a thread that is already unwinding ends every guard hold by a (caught) second panic: PoisonRef::drop
+            # consults thread::panicking(), which the model represents only as "dropped by unwinding"
+            hist.append((t, ("panic",)))
+            cid, mode = sim.guard[t]
+            sim.release(t, cid, mode)
+            del sim.guard[t]
+            sim.key[t] = "free"
         elif kind == "release":
             cid, mode = sim.guard[t]
             if rng.random() < 0.5:
